@@ -90,8 +90,10 @@ def prep_run_physical(
         plan, output_node
     )
     plan = prune_source_literals(plan, inplace=inplace)
-    retry = retry or identity
-    progress_observer = progress_observer or NullProgressObserver()
+    if retry is None:
+        retry = identity
+    if progress_observer is None:
+        progress_observer = NullProgressObserver()
 
     def process(node):
         if type(node) is Call:
